@@ -7,6 +7,8 @@ package proofdb
 import (
 	"fmt"
 	"io"
+	"os"
+	"strings"
 	"sync"
 
 	"github.com/ChainSafe/gossamer/internal/log"
@@ -19,6 +21,25 @@ var quietOnce sync.Once
 // proof node at Info level).
 func quiet() {
 	quietOnce.Do(func() { log.Patch(log.SetLevel(log.Critical), log.SetWriter(io.Discard)) })
+}
+
+// knob draws a per-run switch for an input class that reaches a reported
+// finding. VERIF_PROOFDB_OFF="all" or a comma list of knob names forces such
+// classes off (the tape is drawn all the same), so that the remaining inputs
+// can be explored while a finding is still open.
+func knob(k *kernel.K, num, den int, name string) bool {
+	v := k.Bool(num, den, "knob-"+name)
+	if off := os.Getenv("VERIF_PROOFDB_OFF"); off != "" {
+		if off == "all" {
+			return false
+		}
+		for _, x := range strings.Split(off, ",") {
+			if x == name {
+				return false
+			}
+		}
+	}
+	return v
 }
 
 func hx(b []byte) string {
